@@ -74,15 +74,28 @@ func prelude(body string) (string, []string) {
 	var b strings.Builder
 	b.WriteString(preludeDecls)
 	var used []string
-	for _, ax := range strAxioms {
-		rel := false
-		for _, s := range ax.syms {
-			if containsSym(toks, s) {
-				rel = true
-				break
+	// relevance is closed under the symbols the included axioms introduce themselves
+	in := map[string]bool{}
+	for changed := true; changed; {
+		changed = false
+		for _, ax := range strAxioms {
+			if in[ax.name] {
+				continue
+			}
+			for _, s := range ax.syms {
+				if containsSym(toks, s) {
+					in[ax.name] = true
+					changed = true
+					for t := range symbolSet(ax.text) {
+						toks[t] = true
+					}
+					break
+				}
 			}
 		}
-		if rel {
+	}
+	for _, ax := range strAxioms {
+		if in[ax.name] {
 			b.WriteString("(assert " + ax.text + ") ; axiom " + ax.name + "\n")
 			used = append(used, ax.name)
 		}
